@@ -126,7 +126,9 @@ Definition term_eqb (a b : term) : bool :=
 Definition gk_eqb (a b : gk) : bool :=
   match a, b with GEq, GEq | GNe, GNe | GGe, GGe | GLe, GLe => true | _, _ => false end.
 
-(* derived PartialEq; two Or sets are equal when they have the same size and the same members *)
+(* derived PartialEq; two Or sets are equal when they have the same size and every member of the first is a
+   member of the second (HashSet::eq).  For duplicate-free lists - what a Set is - the converse inclusion
+   follows; it is spelled out here so that no invariant on the lists is needed. *)
 Fixpoint pred_eqb (p q : pred) {struct p} : bool :=
   match p, q with
   | PVal a, PVal b => Bool.eqb a b
@@ -138,7 +140,13 @@ Fixpoint pred_eqb (p q : pred) {struct p} : bool :=
        | [] => true
        | x :: t => (fix ex (m : list pred) : bool :=
                       match m with [] => false | y :: m' => pred_eqb x y || ex m' end) l2 && all t
-       end) l1
+       end) l1 &&
+    (fix all2 (m : list pred) : bool :=
+       match m with
+       | [] => true
+       | y :: m' => (fix ex2 (l : list pred) : bool :=
+                       match l with [] => false | x :: t => pred_eqb x y || ex2 t end) l1 && all2 m'
+       end) l2
   | PAnd a b, PAnd c d => pred_eqb a c && pred_eqb b d
   | PNot a, PNot b => pred_eqb a b
   | POther n, POther m => Nat.eqb n m
